@@ -179,6 +179,11 @@ func registerSym() {
 		if a == b {
 			return true
 		}
+		// compare modulo the sign of zeros inside ≈-congruent operators (smt.QuotZero)
+		a, b = smt.QuotZero(a), smt.QuotZero(b)
+		if a == b {
+			return true
+		}
 		return mkBool(smt.Or(smt.And(smt.FIsNaN(a), smt.FIsNaN(b)), smt.FEq(a, b)))
 	})
 	regSym("EqR", func(fr *frame, args []value) value {
